@@ -31,7 +31,7 @@ HARNESSES = {
     "c06_queue": {"src": [H + "c06_queue.c"] + PIPEX + VS},
     "c12_request": {"src": [H + "c12_request.c"] + PIPEX},
     "c14_rechunk": {"src": [H + "c14_rechunk.c", T + "upipe_ts_sync.c", T + "upipe_ts_check.c", T + "upipe_ts_align.c"] + PIPEX},
-    "pipex_cat": {"src": [H + "pipex_cat.c", T + "upipe_ts_sync.c", T + "upipe_ts_check.c", T + "upipe_ts_align.c"] + PIPEX},
+    "pipex_cat": {"src": [H + "pipex_cat.c", T + "upipe_ts_sync.c", T + "upipe_ts_check.c", T + "upipe_ts_align.c", T + "upipe_ts_psi_split.c", T + "upipe_ts_split.c"] + PIPEX},
     "c07_lin": {"src": [H + "c07_lin.c"] + VS},
     "c19_window": {"src": [H + "c19_window.c", R + "ubuf_mem_common.c", R + "ubuf_mem.c", R + "ubuf_pic_mem.c", R + "ubuf_pic_common.c", R + "ubuf_pic.c",
                            R + "ubuf_sound_mem.c", R + "ubuf_sound_common.c", R + "ubuf_block_mem.c", R + "uref_pic_flow.c", R + "udict_inline.c",
@@ -340,7 +340,7 @@ CHECKS["C14"] = {
 
 
 CAT_ROWS = ["skip>htons", "setattr>delay>idem", "idem", "skip", "htons", "delay", "setattr", "setflowdef", "probe_uref", "match_attr", "null", "dup", "time_limit", "genaux",
-            "buffer", "rate_limit", "qsink", "agg", "chunk", "ts_sync", "ts_check", "ts_align"]
+            "buffer", "rate_limit", "qsink", "agg", "chunk", "ts_sync", "ts_check", "ts_align", "ts_psi_split", "ts_split"]
 CAT_HEAVY = {"buffer": 1, "setattr>delay>idem": 1}
 
 C20_HEAVY = {"rate_limit": 1, "ts_sync": 1, "time_limit": 1, "qsink": 1}   # two instances per history
@@ -359,14 +359,14 @@ def _cat_jobs(oracle, tier, rows=CAT_ROWS, pools=(0, 2)):
             jobs.append(("pipex_cat", ["--row", r, "--oracle", oracle, "--pool", pool, "--prov", prov, "--depth", depth, "--deadline", 75 if q else 840]))
     return jobs
 
-_CAT_BOUNDS = {"quick": "22 catalogue rows (20 pipes + 2 chains): every sequence of up to 5 operations (4 for buffer and the 3-pipe chain) with pool depth 0 and managers provided by the probes, and up to 4 (3) operations with pool depth 2 and managers provided by the sinks (shared managers), over the row's alphabet "
+_CAT_BOUNDS = {"quick": "24 catalogue rows (22 pipes + 2 chains): every sequence of up to 5 operations (4 for buffer and the 3-pipe chain) with pool depth 0 and managers provided by the probes, and up to 4 (3) operations with pool depth 2 and managers provided by the sinks (shared managers), over the row's alphabet "
                         "(set_flow_def F1/F2/foreign, 5 input shapes incl. empty, 3+2-segment and shared-segment buffers, set_output S0/S1(rejecting)/NULL, sink answer toggle, flush, "
                         "every option setter x 3-4 values, subpipe alloc/set_output/release, pump dispatch, an upstream request whose answer makes the upstream push a buffer, "
                         "a probe that tears the subpipes down on source_end, release), followed by release of everything and a run of the event loop to quiescence",
                "thorough": "same alphabet, one operation deeper, all four (pool, provider) combinations"}
 _CAT_NOTE = ("Pipe-private state is not readable from outside, so histories are not merged: the full tree is enumerated up to the depth. "
              "Catalogue: idem skip htons delay setattr setflowdef probe_uref match_attr null dup(+2 output subpipes) time_limit genaux buffer rate_limit "
-             "queue_sink+queue_source(one thread, mock loop) aggregate chunk_stream ts_sync ts_check ts_align, and the chains skip>htons and setattr>delay>idem; other pipe types are outside the bound.")
+             "queue_sink+queue_source(one thread, mock loop) aggregate chunk_stream ts_sync ts_check ts_align ts_psi_split(+2 filtered outputs) ts_split(+2 PID outputs), and the chains skip>htons and setattr>delay>idem; other pipe types are outside the bound.")
 
 CHECKS["C01"] = {
     "engine": "pipex", "design_ref": "DESIGN.md section 3 C01",
@@ -395,8 +395,8 @@ CHECKS["C05"] = {
     "technique": "explicit-state enumeration of all input/control sequences up to a depth on every pass-through / split / buffering catalogue pipe (real code); sequence numbers in payload and attribute checked at recording sinks against the documented transformation and a model of the output contract",
     "level_text": "Same enumeration as C01 (buffers of 0, 2, 3 and 5 octets, one or two segments, dated). Every buffer seen by a sink must be one that was input, at most once per sink, in input order, with exactly the documented change (identity; skip offset removed; octet pairs swapped; delay added to the three dates; attributes added; match_attr predicate) on payload, attributes, dates and flags; one-to-one and duplicating pipes deliver during the input call or never, to exactly the sinks a model of the output contract names (definition stored, output connected, definition accepted) - so a lost, extra or misrouted buffer is caught; holding pipes (time_limit, genaux, buffer, rate_limit, queue sink + source) keep arrival order and, when the output stays connected and accepting, deliver everything once the loop is quiescent; whatever is still held at the end is freed (accounting as in C01). Bounded, not a proof.",
     "level_note": _CAT_NOTE + " Chains: skip>htons and setattr>delay>idem only.",
-    "jobs": {"quick": _cat_jobs("C05", "quick", [r for r in CAT_ROWS if r not in ("agg", "chunk", "ts_sync", "ts_check", "ts_align")]),
-             "thorough": _cat_jobs("C05", "thorough", [r for r in CAT_ROWS if r not in ("agg", "chunk", "ts_sync", "ts_check", "ts_align")])},
+    "jobs": {"quick": _cat_jobs("C05", "quick", [r for r in CAT_ROWS if r not in ("agg", "chunk", "ts_sync", "ts_check", "ts_align", "ts_psi_split", "ts_split")]),
+             "thorough": _cat_jobs("C05", "thorough", [r for r in CAT_ROWS if r not in ("agg", "chunk", "ts_sync", "ts_check", "ts_align", "ts_psi_split", "ts_split")])},
     "rule": "state = one operation history (no merging); non-trivial = histories in which at least one buffer reached a sink",
     "bounds": _CAT_BOUNDS,
     "assumptions": DEFAULT_ASSUME + ["skip offsets never exceed the buffer size (undefined by the documentation)"],
